@@ -1293,7 +1293,6 @@ func ruleG9(c *Ctx) *RuleResult {
 	return r
 }
 
-
 // countedIndexOver: idx is the induction variable of `for i := 0; i < len(X); i++` (a phi of 0 and itself + 1 whose
 // loop condition compares it with len(X)): the hand-written form of a range over X.
 func countedIndexOver(idx ssa.Value) (bool, ssa.Value) {
